@@ -122,55 +122,57 @@ func VerifHarness_ReloadConvergesOnFinalContent() {
 	if zz.Thorough() {
 		steps = 4
 	}
+	notify := func() {
+		if watching {
+			w.events <- fsnotify.Event{Name: zzPath, Op: fsnotify.Write}
+		}
+	}
 	for i := 0; i < steps; i++ {
-		switch zz.Choose(6) {
-		case 0:
-			w.file = 1 + byte(zz.Choose(2)) // write / atomic replace with content A or B
-		case 1:
-			w.file = 0 // delete
-		case 2:
-			if watching { // a notification for the file (possibly stale or duplicated)
-				w.events <- fsnotify.Event{Name: zzPath, Op: fsnotify.Write}
+		switch zz.Choose(7) {
+		case 0: // write / atomic replace with content A or B, noticed by the watcher
+			w.file = 1 + byte(zz.Choose(2))
+			notify()
+		case 1: // the same, but the notification is lost
+			w.file = 1 + byte(zz.Choose(2))
+		case 2: // delete (noticed or not)
+			w.file = 0
+			if zz.Bool() {
+				notify()
 			}
-		case 3:
-			w.tick()
+		case 3: // a stale or duplicated notification
+			notify()
 		case 4:
-			w.fireDebounce()
+			w.tick()
 		case 5:
+			w.fireDebounce()
+		case 6:
 			if watching { // the watcher fails: the loop drops it and re-attaches on a later tick
 				w.errs <- errors.New("overflow")
 				watching = false
 			}
 		}
 	}
-	// the content now stays unchanged: one tick ...
+	// the content now stays unchanged. A tick the loop has processed completely is recognised by a second
+	// tick being taken up (the loop reads the file first thing in a tick).
 	final := w.fp()
-	old := w.fpCalls
-	w.tick()
-	zz.WaitGhostNe(w, "fp", old)
-	if !watching {
-		// without a watcher there is no barrier to wait on: let the loop finish the tick by another one
-		old = w.fpCalls
-		w.tick()
-		zz.WaitGhostNe(w, "fp", old)
-	} else {
-		w.barrier()
+	settle := func() {
+		for k := 0; k < 2; k++ {
+			old := w.fpCalls
+			w.tick()
+			zz.WaitGhostNe(w, "fp", old)
+		}
 	}
-	// ... plus the debounce expiry
-	if w.fireDebounce() && watching {
-		w.barrier()
-		w.barrier()
+	settle()                // one reconciliation tick (and one more to know it is done) ...
+	if w.fireDebounce() { // ... plus the debounce expiry
+		settle()
 	}
-	if len(w.timerCh) == 0 && watching {
+	if len(w.timerCh) == 0 {
 		zz.Assert(w.lastFp == final, "the loop did not look at the file after it stopped changing")
 		zz.Assert(w.evaluated == final, "after the content stayed unchanged for a reconciliation tick and the debounce, the callback had not run for it")
 		zz.Reach("converged")
 	}
 	zz.Assert(w.calls <= steps+1, "the callback ran more often than the content changed")
 	cancel()
-	if watching {
-		zz.WaitAll()
-	}
 	zz.Reach("history")
 }
 
